@@ -242,6 +242,8 @@ def run():
     # IgnoredIdsIrrelevant, ExchangedIdsInvisible), compared with nbdime's predicates under identifier=False
     from . import align
     align.cell_align(chk, 2, 1 if chk.quick else 2, True)
+    # ... and with the details ignored the alignment of a cell's outputs does not look at execution counts
+    align.cell_align(chk, 2 if chk.quick else 3, 0, True, kind="outputs")
     seen, cases = set(), []
     for c in r.json_lines("CASE"):
         for f in ("ignored", "differing"):
